@@ -106,6 +106,15 @@ def run_sharded(worker, items, wall_budget_s, procs=None):
     """Run worker(item) for each item on a fork pool; stop handing out work after the budget."""
     global _WORKER
     _WORKER = worker
+    results = _run_sharded(worker, items, wall_budget_s, procs)
+    ALL_RESULTS.extend(results[0])
+    return results
+
+
+ALL_RESULTS = []
+
+
+def _run_sharded(worker, items, wall_budget_s, procs=None):
     procs = procs or min(os.cpu_count() or 1, 16)
     t0 = time.time()
     results, skipped = [], 0
@@ -297,6 +306,12 @@ class Report:
         if unconfirmed:
             print(f"HARNESS-ERROR: {len(unconfirmed)} solver counterexample(s) did not reproduce concretely; "
                   f"first: {unconfirmed[0].get('kind')} {json.dumps(_jsonable(unconfirmed[0].get('data')))[:600]}")
+            return EXIT_HARNESS
+        lost = [r for r in ALL_RESULTS if r.get("status") in ("error", "inconclusive")]
+        if len(lost) > len(self.errors) + len(self.inconclusive):
+            # a failed evaluation that no section accounted for is never a pass
+            print(f"HARNESS-ERROR: {len(lost) - len(self.errors) - len(self.inconclusive)} failed evaluation(s) were not attributed to any section; first: "
+                  f"{str(lost[0].get('error') or lost[0].get('reason'))[-800:]}")
             return EXIT_HARNESS
         if self.errors:
             print(f"HARNESS-ERROR: {len(self.errors)} worker error(s); first:\n{self.errors[0]['error']}")
